@@ -217,6 +217,9 @@ def ilLoop (ctx : Ctx) (root : State) (rootHash : UInt64) (workers : Nat) (hist 
   | 0, depth, nops, st => .ok (depth, nops, st)
   | n + 1, depth, nops, st =>
     if st.finished then .ok (depth, nops, st) else
+    -- `if depth > 0 && token.is_cancelled() { break; }`
+    let st := boundaryPoll ctx depth st
+    if st.finished then .ok (depth, nops, st) else
     let ws := workersOfIteration depth st.bestMv (drawSeeds workers st.rng).1 fun _ => 0
     let H := hist.getD depth #[]
     let outs := outsOf ctx root st.tt ws H.toList
@@ -250,11 +253,18 @@ theorem ilLoop_sound (ctx : Ctx) (root : State) (rootHash : UInt64) (workers : N
       exact .finished n depth st hf
     · rw [if_neg hf] at h
       simp only at h
-      split at h
-      · rename_i hok
-        exact .step n depth st _ _ (by simpa using hf)
-          (ilStep_sound ctx root rootHash workers depth st (hist.getD depth #[]).toList hok) (ih _ _ _ _ h)
-      · split at h <;> cases h
+      by_cases hb : (boundaryPoll ctx depth st).finished = true
+      · rw [if_pos hb] at h
+        simp only [Except.ok.injEq] at h
+        subst h
+        exact .stopped n depth st st.polls (by simpa using hf) hb
+      · rw [if_neg hb] at h
+        split at h
+        · rename_i hok
+          exact .step n depth st _ _ st.polls (by simpa using hf) (by simpa using hb)
+            (ilStep_sound ctx root rootHash workers depth (boundaryPoll ctx depth st) (hist.getD depth #[]).toList hok)
+            (ih _ _ _ _ h)
+        · split at h <;> cases h
 
 /-- the answer line of an accepted replay -/
 def okLine (hist : Array (Array (Nat × TOp))) (rootHash : UInt64) (depth nops : Nat) (st : IterSt) : String :=
